@@ -8,7 +8,7 @@ use crate::refint::{RefErr, RefItem};
 pub const META_C10: Meta = Meta {
     id: "C10",
     level: "exploration",
-    rule: "Cases from profile `hazard`: accepted (program, signal list) pairs seeded with / and % by literal 0, by variables and device outputs that may be 0, MIN/-1, overflowing + - *, shift counts like -1/63/64/65, random(0), random(1), random(-5), random(device output), signExt, variables first bound inside a while body that may run zero times and are used afterwards, widths from {1,2,7,8,16,31,32,33,48,62,63,64} on inputs, outputs and bidirectionals, bits(0,e), device answers Z/X at ~6% of (call,signal), driver errors at a random call in 25% of cases; plus try_iter_static on every program that reads no outputs, and a fixed list of bits(64,e) rows. Oracle: every stage runs under catch_unwind and must never panic (signature = site+message); the item at which the reference says evaluation is impossible (zero divisor, unassigned variable with no output of that name supplied, empty random range [a drawn value is accepted too], unimplemented function) must be an error item; everything else must follow the prescribed row stream; the caller stops at the first error item. Non-trivial = the reference reaches >= 1 hazard on the executed path, or the configuration has a 63/64-bit signal, or a Z/X read / driver error item occurs.",
+    rule: "Cases from profile `hazard`: accepted (program, signal list) pairs seeded with / and % by literal 0, by variables and device outputs that may be 0, MIN/-1, overflowing + - *, shift counts like -1/63/64/65, random(0), random(1), random(-5), random(device output), signExt, variables first bound inside a while body that may run zero times and are used afterwards, widths from {1,2,7,8,16,31,32,33,48,62,63,64} on inputs, outputs and bidirectionals, bits(0,e), device answers Z/X at ~6% of (call,signal), driver errors at a random call in 25% of cases; plus try_iter_static on every program that reads no outputs, and a fixed list of bits(64,e) rows. Oracle: every stage runs under catch_unwind and must never panic (signature = site+message); the item at which the reference says evaluation is impossible (zero divisor, unassigned variable with no output of that name supplied, empty random range [a drawn value is accepted too], unimplemented function) must be an error item; everything else must follow the prescribed row stream; the caller stops at the first error item. 1.5% of the cases are very wide tests (129-300 columns, inputs / outputs / X / C / Z concentrated in the highest columns), 2.5% rebind a loop's own counter to MAX / MAX-1 / 2^40 (no panic, termination, vars() within the textual scope). Non-trivial = the reference reaches >= 1 hazard on the executed path, or the configuration has a 63/64-bit signal, or a Z/X read / driver error item occurs.",
     assumptions: &["reference interpreter; draw log from the hook for programs using random"],
     quick_cases: 150000,
     thorough_cases: 3000000,
@@ -84,6 +84,62 @@ pub fn c10(case_seed: u64, acc: &mut Acc) {
     if r.chance(250, 1000) {
         let n = 1 + r.below(12);
         case.script.faults.push((r.below(n), Fault::Error(r.next_u64() >> 1)));
+    }
+    if r.chance(15, 1000) {
+        // very wide tests (129-300 columns; inputs, outputs and X / C / Z entries in the highest
+        // columns): column numbers beyond what fits a u64 or u128 used as a bit set
+        let n = *r.pick(&[129usize, 130, 131, 160, 200, 257, 300]);
+        let mut sigs: Vec<Sig> = vec![];
+        for i in 0..n {
+            let high = i + 4 >= n;
+            if (high && r.chance(1, 2)) || (!high && r.chance(2, 3)) {
+                sigs.push(Sig { name: format!("I{i}"), bits: 1 + r.below(3), kind: SigKind::In(InVal::V(0)) });
+            } else {
+                sigs.push(Sig { name: format!("O{i}"), bits: 1 + r.below(8), kind: SigKind::Out });
+            }
+        }
+        let header: Vec<String> = sigs.iter().map(|s| s.name.clone()).collect();
+        let mut items = vec![];
+        for id in 1..=3usize {
+            let (mut nx, mut nc) = (0, 0);
+            let es: Vec<Entry> = sigs
+                .iter()
+                .enumerate()
+                .map(|(i, s)| {
+                    let high = i >= 128;
+                    if s.is_input() {
+                        match r.below(if high { 8 } else { 60 }) {
+                            0 if nx < 3 => {
+                                nx += 1;
+                                Entry::X(false)
+                            }
+                            1 if nc < 2 => {
+                                nc += 1;
+                                Entry::C(false)
+                            }
+                            2 => Entry::Z(false),
+                            _ => Entry::Lit(r.range(0, 1), Radix::Dec),
+                        }
+                    } else {
+                        match r.below(4) {
+                            0 => Entry::X(false),
+                            1 => Entry::Z(false),
+                            _ => Entry::Lit(r.range(0, 9), Radix::Dec),
+                        }
+                    }
+                })
+                .collect();
+            items.push(Item::Row(id, es));
+        }
+        let outs: Vec<usize> = (0..sigs.len()).filter(|&i| sigs[i].is_output()).collect();
+        case = Case {
+            program: Program { header, items },
+            signals: sigs,
+            script: Script { layout: outs.into_iter().filter(|_| r.chance(1, 2)).collect(), values: ValueFn::Small { salt: 9, modulus: 4 }, faults: vec![], override_write: r.chance(1, 2), rebuild_signals: false },
+            layout_opts: crate::pp::Layout::plain(),
+            rng_seed: 1,
+        };
+        acc.tag("very_wide_test_129_to_300_columns");
     }
     c10_case(&case, case_seed, "gen", acc);
 }
